@@ -891,8 +891,19 @@ def oracle_sim(w):
     inits = [S.init_qobj(s, w["n"], w["mode"]) for s in w["inits"]]
     m = S.num_meas(w)
     results = []          # (call index, CircuitResult)
+    versions = S.versions_of(w)
+    cur_ops = w["ops"]
     for j, c in enumerate(w["calls"]):
         c = tuple(c)
+        if c[0] == "edit":
+            # the user edits the simulator's circuit in place (number of operations unchanged); from now on a fresh
+            # simulator is one constructed for the circuit as it is now
+            b2 = (snap(inits), snap(lists))
+            S.apply_edit(qc, cur_ops, versions[c[1]], c[2] if len(c) > 2 else "replace")
+            cur_ops = versions[c[1]]
+            if (snap(inits), snap(lists)) != b2:
+                return True, f"call {j} edit changed a state or list argument"
+            continue
         before = (snap(qc), snap(inits), snap(lists))
         lists_before = [list(l) for l in lists]
         deterministic = True
@@ -948,7 +959,9 @@ def oracle_sim(w):
             except Exception as e:
                 canon2 = ("exc", type(e).__name__)
             if not close(canon, canon2):
-                return True, f"call {j} {c[0]} on the used simulator differs from the same call on a fresh one"
+                return True, (f"call {j} {c[0]} on the used simulator differs from the same call on a fresh one"
+                              + (" constructed for the circuit as edited (operations now: " + json.dumps(cur_ops) + ")"
+                                 if cur_ops is not w["ops"] else ""))
             # repeat: the same call again on the same objects
             if deterministic:
                 np.random.seed(1234 + j)
@@ -969,7 +982,7 @@ def oracle_sim(w):
             again = run_query(c[1], qc)
             if not close(out, again):
                 return True, f"query {c[1]} repeated returns a different result"
-            fresh_qc = S.build_circuit(w)
+            fresh_qc = S.build_circuit(dict(w, ops=cur_ops))
             if not close(out, run_query(c[1], fresh_qc)):
                 return True, f"query {c[1]} on the used circuit differs from a freshly built circuit"
         if c[0] == "state" and mode == "state_vector_simulator":
@@ -1018,6 +1031,116 @@ def oracle_getter(w):
 
 
 NOT_EVALUABLE = ("IntegratorException", "LinAlgError", "FloatingPointError", "MemoryError")
+
+
+# ------------------------------------------------------------------------------------------
+# one simulator, its circuit edited in place between runs (full gate library: also `gate.arg_value = new`)
+
+def rand_simedit(rng):
+    w = rand_lib_circuit(rng)
+    gpos = [i for i, g in enumerate(w["gates"]) if "M" not in g]
+    edits = []
+    n = w["n"]
+    for _ in range(rng.randint(1, 3)):
+        if not gpos:
+            break
+        i = rng.choice(gpos)
+        g = w["gates"][i]
+        r = rng.random()
+        if isinstance(g.get("arg"), (int, float)) and r < 0.5:
+            edits.append({"i": i, "how": "arg", "arg": g["arg"] + rng.choice([0.3, 0.9, -1.1])})
+        elif r < 0.75 and g.get("targets"):
+            perm = list(range(n))
+            rng.shuffle(perm)
+            edits.append({"i": i, "how": "targets", "targets": [perm[t] for t in g["targets"]],
+                          "controls": None if not g.get("controls") else [perm[t] for t in g["controls"]]})
+        else:
+            new = next((h for h in rand_lib_circuit(rng, n)["gates"] if "M" not in h and h.get("cc") is None
+                        and h["name"] not in ("UROT", "UCROT")), None)
+            if new is not None:
+                edits.append({"i": i, "how": "replace", "gate": new})
+    return {"kind": "simedit", "n": n, "ncb": w["ncb"], "gates": w["gates"], "edits": edits,
+            "mode": "sv" if rng.random() < 0.8 else "dm", "init": rng.randrange(2 ** n)}
+
+
+def apply_lib_edit(qc, e):
+    g = qc.gates[e["i"]]
+    if e["how"] == "arg":
+        g.arg_value = e["arg"]
+    elif e["how"] == "targets":
+        g.targets = list(e["targets"])
+        if e.get("controls") is not None:
+            g.controls = list(e["controls"])
+    else:
+        h = e["gate"]
+        qc.remove_gate_or_measurement(index=e["i"])
+        qc.add_gate(h["name"], targets=(None if h["targets"] is None else list(h["targets"])),
+                    controls=(list(h["controls"]) if h.get("controls") else None),
+                    arg_value=(list(h["arg"]) if isinstance(h.get("arg"), list) else h.get("arg")), index=[e["i"]])
+
+
+def oracle_simedit(w):
+    """One CircuitSimulator; between runs the user edits its circuit in place with the number of operations unchanged
+    (gate.arg_value re-assigned, targets / controls re-assigned, gate i replaced through remove + add at index i).
+    After every edit, run_statistics (and run, when there is no measurement) on the used simulator must equal the same
+    call on a freshly constructed simulator of the circuit as it is now, and QubitCircuit.run_statistics."""
+    import qutip
+    from qutip_qip.circuit import CircuitSimulator
+    from qutip_qip.operations import Measurement
+    try:
+        qc = build_lib_circuit(w)
+    except Exception as e:
+        return False, "not constructible: " + type(e).__name__
+    mode = {"sv": "state_vector_simulator", "dm": "density_matrix_simulator"}[w["mode"]]
+    n = w["n"]
+    bits = [(w["init"] >> (n - 1 - q)) & 1 for q in range(n)]
+    init = qutip.basis([2] * n, bits)
+    if w["mode"] == "dm":
+        init = qutip.ket2dm(init)
+    cb = [0] * w["ncb"] if w["ncb"] else None
+    sim = CircuitSimulator(qc, mode=mode)
+
+    def ev(s, what):
+        try:
+            r = s.run_statistics(init, cbits=(None if cb is None else list(cb))) if what == "stat" else \
+                s.run(init, cbits=(None if cb is None else list(cb)))
+            return result_canon(r)
+        except Exception as e:
+            return ("exc", type(e).__name__)
+
+    has_m = any(isinstance(g, Measurement) for g in qc.gates)
+    for stage in range(len(w["edits"]) + 1):
+        if stage:
+            e = w["edits"][stage - 1]
+            try:
+                apply_lib_edit(qc, e)
+            except Exception as ex:
+                return False, f"edit {stage} not applicable: {type(ex).__name__}"
+            if len(qc.gates) != len(w["gates"]):
+                return False, "edit changed the number of operations"
+        for what in (["stat"] if has_m else ["stat", "run"]):
+            used = ev(sim, what)
+            fresh = ev(CircuitSimulator(qc, mode=mode), what)
+            if not close(used, fresh, 1e-9):
+                where = "before any edit" if not stage else f"after edit {stage} ({json.dumps(w['edits'][stage - 1])})"
+                return True, (f"{'run_statistics' if what == 'stat' else 'run'} {where}: the used simulator differs from a "
+                              f"freshly constructed CircuitSimulator of the circuit as it is now")
+            if what == "stat":
+                try:
+                    direct = result_canon(qc.run_statistics(init, cbits=(None if cb is None else list(cb))))
+                except Exception as ex:
+                    direct = ("exc", type(ex).__name__)
+                if mode == "state_vector_simulator" and not close(used, direct, 1e-9):
+                    return True, f"run_statistics after edit {stage}: the used simulator differs from QubitCircuit.run_statistics"
+    return False, f"{len(w['edits'])} in-place edits: used simulator = fresh simulator of the edited circuit"
+
+
+W_SIMEDIT = {"kind": "simedit", "n": 2, "ncb": 0, "mode": "sv", "init": 0,
+             "gates": [{"name": "RX", "targets": [0], "controls": None, "arg": math.pi / 2, "cc": None, "ccv": None},
+                       {"name": "CNOT", "targets": [1], "controls": [0], "arg": None, "cc": None, "ccv": None}],
+             "edits": [{"i": 0, "how": "replace",
+                        "gate": {"name": "RY", "targets": [0], "controls": None, "arg": math.pi / 3, "cc": None, "ccv": None}},
+                       {"i": 0, "how": "arg", "arg": 2.1}]}
 
 
 def oracle_device(dev):
@@ -1104,6 +1227,8 @@ def oracle(w):
         return oracle_noise(w)
     if w["kind"] == "pnoise":
         return PN.oracle_pnoise(w)
+    if w["kind"] == "simedit":
+        return oracle_simedit(w)
     if w["kind"] == "runargs":
         return AR.oracle_runargs(w)
     if w["kind"] == "plotlabels":
@@ -1121,7 +1246,7 @@ def rand_shape_witness(rng):
 SIM_QUERIES = sorted(QUERIES)
 
 
-def rand_sim_history(rng, with_queries=True, max_calls=8):
+def rand_sim_history(rng, with_queries=True, max_calls=8, with_edits=True):
     n = rng.randint(1, 3)
     ncb = rng.randint(0, 3)
     ops = S.rand_circuit(rng, n, ncb, rng.randint(1, 6), 3, big_ccv=0.0)
@@ -1132,10 +1257,35 @@ def rand_sim_history(rng, with_queries=True, max_calls=8):
     inits = [S.rand_init(rng, n, None if mode == "sv" else "basis") for _ in range(2)]
     lists = [[rng.randint(0, 1) for _ in range(ncb)] for _ in range(2)] if ncb else []
     calls = []
+    # in-place edits of the simulator's circuit between calls, number of operations unchanged: gate i replaced by
+    # another gate (remove + add at the same index) or its targets / controls re-assigned
+    alts = []
+    gate_pos = [i for i, o in enumerate(ops) if "g" in o]
+    if with_edits and gate_pos and rng.random() < 0.45:
+        cur = ops
+        for _ in range(rng.randint(1, 2)):
+            i = rng.choice(gate_pos)
+            new = None
+            for _try in range(8):
+                cand = S.rand_gate(rng, n, ncb, big_ccv=0.0, p_cc=0.0)
+                cand = dict(cand, cc=cur[i]["cc"], ccv=cur[i]["ccv"]) if rng.random() < 0.5 else cand
+                if cand != cur[i]:
+                    new = cand
+                    break
+            if new is None:
+                break
+            cur = cur[:i] + [new] + cur[i + 1:]
+            alts.append(cur)
+    version = 0
     for _ in range(rng.randint(2, max_calls)):
         cb = rng.choice([None, 0, 1]) if lists else None
         mr = [rng.randint(0, 1) for _ in range(m)] if (m and rng.random() < 0.8) else None
         k = rng.random()
+        if alts and calls and rng.random() < 0.3:
+            v = rng.choice([x for x in range(len(alts) + 1) if x != version])
+            version = v
+            calls.append(("edit", v, rng.choice(["replace", "assign"])))
+            continue
         if k < 0.3:
             calls.append(("run", rng.randrange(2), cb, mr))
         elif k < 0.5:
@@ -1146,8 +1296,11 @@ def rand_sim_history(rng, with_queries=True, max_calls=8):
             calls.append(("init", rng.randrange(2), cb, mr))
         else:
             calls.append(("step",))
-    return {"kind": "sim", "n": n, "ncb": ncb, "mode": mode, "ops": ops, "lists": lists, "inits": inits,
-            "calls": calls}
+    w = {"kind": "sim", "n": n, "ncb": ncb, "mode": mode, "ops": ops, "lists": lists, "inits": inits,
+         "calls": calls}
+    if any(c[0] == "edit" for c in calls):
+        w["alts"] = alts
+    return w
 
 
 class C16(PropertyCheck):
@@ -1161,6 +1314,7 @@ class C16(PropertyCheck):
         "QipVerif.C16.fresh_equivalent_rng",
         "QipVerif.C16.repeat_equal_rng",
         "QipVerif.C16.no_alias",
+        "QipVerif.C16.fresh_equivalent_edited",
         "QipVerif.C16.fresh_equivalent_load",
         "QipVerif.C16.query_pure",
         "QipVerif.C16.transform_result_independent",
@@ -1222,9 +1376,12 @@ class C16(PropertyCheck):
                   "final states on repetition. Noise elements are tokens in Model/SimPulse.lean (which list of which pulse "
                   "object receives which element, in which order); operators and coefficient arrays of the elements are "
                   "compared by the snapshots only. Module-level state of the package (tables, caches) is not modelled: it is "
-                  "exercised by repeated calls in ONE process and compared with a NEW process (oracle level). Three defects "
-                  "found by the audit of aliased / module-level state are proposed as fixes/C16-6..8; until they are in the "
-                  "tree their random streams are off (the evidence notes say which reproduce).")
+                  "exercised by repeated calls in ONE process and compared with a NEW process (oracle level). The list of noise "
+                  "objects is an aliasable object (noise_list_unchanged needs a copy of it before RelaxationNoise(t1,t2) is "
+                  "appended: read from the source). Model/SimEdit.lean states the contract that the simulator reads its "
+                  "circuit at every initialize/step and keeps nothing derived from the gates (fresh_equivalent_edited: "
+                  "histories with in-place edits of the circuit); tied by sim histories with gate replacements / re-assigned "
+                  "targets on the exact gate set, arg_value edits at oracle level only.")
     trusted_base = [
         "Lean 4.33 kernel; axioms propext, Classical.choice, Quot.sound",
         "Model/Sim.lean, Model/Heap.lean as a description of which attributes each public call writes (validated by "
@@ -1261,7 +1418,7 @@ class C16(PropertyCheck):
             state = {}
 
             def observer(j, c, when, objs, chunk, problems=problems, state=state):
-                cur = (snap(objs["qc"]), snap(objs["inits"]))
+                cur = (snap(objs["qc"]) if c[0] != "edit" else None, snap(objs["inits"]))
                 if when == "before":
                     state["s"] = cur
                 elif cur != state["s"]:
@@ -1284,7 +1441,7 @@ class C16(PropertyCheck):
             lines.append(S.encode(mcase, cfg, picks))
         outs = drv.run(lines)
         for case, impl, problems, o in zip(cases, impls, snaps_ok, outs):
-            inp = {k: case[k] for k in ("n", "ncb", "mode", "ops", "lists", "inits", "calls")}
+            inp = {k: case[k] for k in ("n", "ncb", "mode", "ops", "lists", "inits", "calls", "alts") if k in case}
             kinds = [c[0] for c in case["calls"]]
             res.case(inp, nontrivial=len(case["calls"]) >= 2,
                      tags=["stream=sim-history", "calls=%d" % len(kinds)] + sorted({"call=" + k for k in kinds}) +
@@ -1580,7 +1737,8 @@ class C16(PropertyCheck):
     def _sweep(self, ctx, budget_s, count):
         rng = ctx.rng
         t0 = time.time()
-        fixed = (W_ALIAS, W_PHASE, W_GETTER, W_DRAW, W_QASM, W_SHAPE, W_SHARE_REV, W_SHARE_CHAIN, W_NOISE) + tuple(PN.FIXED)
+        fixed = (W_ALIAS, W_PHASE, W_GETTER, W_DRAW, W_QASM, W_SHAPE, W_SHARE_REV, W_SHARE_CHAIN, W_NOISE, W_SIMEDIT) + \
+            tuple(PN.FIXED)
         pend = pending()
         if "C16-6" not in pend:
             fixed += (AR.W_COPS, AR.W_OPTS)
@@ -1636,6 +1794,15 @@ class C16(PropertyCheck):
                 if f:
                     yield w, d
                 continue
+            if 0.70 <= r < 0.78:
+                w = rand_simedit(rng)
+                try:
+                    f, d = oracle(w)
+                except Exception as e:
+                    f, d = False, "not applicable: " + repr(e)[:100]
+                if f:
+                    yield w, d
+                continue
             if 0.64 <= r < 0.70:
                 if r < 0.67:
                     w = None if "C16-6" in pend else AR.rand_runargs(rng)
@@ -1664,7 +1831,7 @@ class C16(PropertyCheck):
                 w = rand_sim_history(rng)
                 w["calls"] = [list(c) for c in w["calls"]]
             elif r < 0.8:
-                w = rand_sim_history(rng, with_queries=False)
+                w = rand_sim_history(rng, with_queries=False, with_edits=False)
                 w = {"kind": "getter", "n": w["n"], "ncb": w["ncb"], "mode": "sv", "ops": w["ops"], "lists": [],
                      "inits": w["inits"][:1], "calls": [], "mr": [rng.randint(0, 1) for _ in range(S.num_meas(w))]}
             else:
